@@ -3,7 +3,7 @@
 cd "$(dirname "$0")"
 ./setup.sh
 for id in $(python3 -c "import json;print(' '.join(c['property_id'] for c in json.load(open('MANIFEST.json'))['checks']))"); do
-  start=$(date +%s); ./check $id thorough > thorough_$id.log 2>&1; rc=$?; end=$(date +%s)
+  start=$(date +%s); ./check $id thorough $KV_EXTRA > thorough_$id.log 2>&1; rc=$?; end=$(date +%s)
   echo "$id exit=$rc $((end-start))s $(tail -1 thorough_$id.log | cut -c1-200)"
   grep -m5 "INCONCLUSIVE\|VIOLATION" thorough_$id.log | cut -c1-300
 done
